@@ -60,8 +60,10 @@ def units(tier, seed):
         us.append({"kind": "dev", "shape": [3, 3], "base": "converge", "maxdev": 2, "seed": seed, "maxinlets": 1, "part": [2, 4]})
         us.append({"kind": "dev", "shape": [3, 3], "base": "converge", "maxdev": 2, "seed": seed, "maxinlets": 1, "part": [3, 4]})
         us += mixed_units(tier, seed)
+        us += [{"kind": "strip", "n": n, "seed": seed, "maxinlets": 1} for n in STRIP_SIZES_QUICK]
     else:
         us += mixed_units(tier, seed)
+        us += [{"kind": "strip", "n": n, "seed": seed, "maxinlets": 1} for n in STRIP_SIZES_THOROUGH]
         for u in _flow.shape_units(small + [((1, 5), "full"), ((5, 1), "full")], seed, target=400):
             u["maxinlets"] = 2
             us.append(u)
@@ -79,6 +81,31 @@ def units(tier, seed):
                     us.append({"kind": "dev", "shape": list(shape), "base": b, "maxdev": 2,
                                "seed": seed, "maxinlets": 1 if shape != (4, 4) else 0, "part": [p, nparts]})
     return us
+
+
+STRIP_TAG = {}
+STRIP_SIZES_QUICK = [8, 16, 17, 64, 255, 256, 257, 300]
+STRIP_SIZES_THOROUGH = STRIP_SIZES_QUICK + [1000, 4097]
+
+
+def strip_codes(n, horizontal, field, dev):
+    """long one-row / one-column grids: all cells flow to the far end (east / south) or away from it (west /
+    north), optionally with one deviation (a sink or an invalid code in the middle)"""
+    fwd, back = (1, 16) if horizontal else (4, 64)
+    codes = [fwd if field == "fwd" else back] * n
+    if dev == "sink-mid":
+        codes[n // 2] = 0
+    elif dev == "invalid-mid":
+        codes[n // 2] = 3
+    elif dev == "cycle-end":
+        if n >= 2:
+            codes[n - 1] = back if field == "fwd" else fwd
+            codes[0] = fwd if field == "fwd" else back
+    return codes
+
+
+def strip_outlets(n):
+    return sorted(set([0, 1, n // 2, n - 2, n - 1]) & set(range(n)))
 
 
 MIXED_PAIRS_QUICK = [((1, 1), (2, 1)), ((2, 1), (3, 1)), ((1, 2), (2, 2)), ((1, 3), (3, 3))]
@@ -159,7 +186,7 @@ def inlet_sets(ntot, outlet, maxinlets):
             yield list(s)
 
 
-def check_grid(ctx, nrows, ncols, codes, maxinlets, default_nval=False, light=False, prev=None):
+def check_grid(ctx, nrows, ncols, codes, maxinlets, default_nval=False, light=False, prev=None, outlets=None):
     from hydrodiy.gis.grid import delineate_river
     ntot = nrows * ncols
     m = FlowModel(nrows, ncols, codes)
@@ -168,6 +195,12 @@ def check_grid(ctx, nrows, ncols, codes, maxinlets, default_nval=False, light=Fa
     fd.data = arr
     ca.flowdir.data = arr
     base = {"shape": [nrows, ncols], "codes": list(codes), "maxinlets": maxinlets}
+    if outlets is not None:
+        base["outlets"] = list(outlets)
+        if ntot > 64:
+            # long grids: the case stores the generator, not thousands of codes
+            base["codes"] = None
+            base["strip"] = STRIP_TAG.get("current")
     if prev is not None:
         base["prev"] = prev         # the grid (of another shape) that was processed just before in this process
     nontriv = any(d >= 0 for d in m.down)
@@ -201,7 +234,7 @@ def check_grid(ctx, nrows, ncols, codes, maxinlets, default_nval=False, light=Fa
                           observed=up[c].tolist(), expected=sorted(m.up[c]))
 
     # ---- areas, filled areas, flow path lengths
-    for outlet in range(ntot):
+    for outlet in (range(ntot) if outlets is None else outlets):
         oncycle = m.on_cycle(outlet)
         for inlets in inlet_sets(ntot, outlet, maxinlets):
             case = dict(base, outlet=outlet, inlets=inlets)
@@ -280,7 +313,7 @@ def check_grid(ctx, nrows, ncols, codes, maxinlets, default_nval=False, light=Fa
         return
     # ---- river traces
     xll, yll, csz = 10.0, -4.0, 2.0
-    for start in range(ntot):
+    for start in (range(ntot) if outlets is None else outlets):
         case = dict(base, river_start=start)
         nval = ntot + 3
         try:
@@ -330,7 +363,28 @@ def check_grid(ctx, nrows, ncols, codes, maxinlets, default_nval=False, light=Fa
                 break
 
 
+def strip_cases(n):
+    for horizontal in (True, False):
+        for field in ("fwd", "back"):
+            for dev in ("none", "sink-mid", "invalid-mid", "cycle-end"):
+                yield horizontal, field, dev
+
+
 def run_unit(unit, ctx):
+    if unit["kind"] == "strip":
+        n = unit["n"]
+        for i, (horizontal, field, dev) in enumerate(strip_cases(n)):
+            if not ctx.sup.begin(i):
+                continue
+            codes = strip_codes(n, horizontal, field, dev)
+            nr, nc = (1, n) if horizontal else (n, 1)
+            STRIP_TAG["current"] = {"n": n, "horizontal": horizontal, "field": field, "dev": dev}
+            if i == 0:
+                ctx.case(False, n=0, sample={"shape": [nr, nc], "strip": STRIP_TAG["current"], "outlets": strip_outlets(n)})
+            ctx.count("strip_grids")
+            check_grid(ctx, nr, nc, codes, 0, outlets=strip_outlets(n))
+            ctx.sup.end()
+        return
     nrows, ncols = unit["shape"]
     first = True
     if unit["kind"] == "mixed":
@@ -366,6 +420,14 @@ def run_unit(unit, ctx):
 
 def crash_violation(unit, idx, status, stderr):
     codes = None
+    if unit["kind"] == "strip":
+        cases = list(strip_cases(unit["n"]))
+        h, f, d = cases[idx] if idx is not None and idx < len(cases) else (None, None, None)
+        n = unit["n"]
+        return ("grid:%s:strip" % ("hang" if "timeout" in status else "crash"),
+                {"shape": [1, n] if h else [n, 1], "codes": None, "maxinlets": 0, "outlets": strip_outlets(n),
+                 "strip": {"n": n, "horizontal": h, "field": f, "dev": d}},
+                "the interpreter did not survive a %d-cell strip grid: %s" % (n, status))
     if unit["kind"] == "mixed":
         return ("grid:%s:mixed-shapes" % ("hang" if "timeout" in status else "crash"),
                 {"shape": unit["shape"], "codes": None, "maxinlets": 0, "unit": unit, "index": idx},
@@ -393,6 +455,12 @@ def replay(case):
     from mc.explore import Result
     ctx = Result()
     nrows, ncols = case["shape"]
+    if case.get("strip"):
+        st = case["strip"]
+        STRIP_TAG["current"] = st
+        codes = strip_codes(st["n"], st["horizontal"], st["field"], st["dev"])
+        check_grid(ctx, nrows, ncols, codes, 0, outlets=case.get("outlets") or strip_outlets(st["n"]))
+        return [v for lst in ctx.violations.values() for v in lst]
     if case.get("prev"):
         scratch = Result()
         check_grid(scratch, case["prev"]["shape"][0], case["prev"]["shape"][1], case["prev"]["codes"], 0)
